@@ -1,11 +1,22 @@
 package index
 
 import (
+	"fmt"
 	"log"
 	"os"
-
-	"github.com/spq/pkappa2/internal/tools"
+	"path/filepath"
+	"strings"
 )
+
+// mergedFilename returns the name of the n-th output file of a merge.
+// After a restart the index files are stacked in the order of their names,
+// so the output is named after the newest merged index and not after the
+// time of the merge: an index that was created while the merge was running
+// (and is added after it) has to stay above the merged one.
+func mergedFilename(indexDir string, newest *Reader, n int) string {
+	base := strings.TrimSuffix(filepath.Base(newest.filename), ".idx")
+	return filepath.Join(indexDir, fmt.Sprintf("%s.m%d.idx", base, n))
+}
 
 func Merge(indexDir string, indexes []*Reader) ([]*Reader, error) {
 	ws := []*Writer{}
@@ -16,7 +27,7 @@ func Merge(indexDir string, indexes []*Reader) ([]*Reader, error) {
 			idx := indexes[idxIdx]
 			for wIdx := 0; wIdx <= len(ws); wIdx++ {
 				if wIdx == len(ws) {
-					w, err := NewWriter(tools.MakeFilename(indexDir, "idx"))
+					w, err := NewWriter(mergedFilename(indexDir, indexes[len(indexes)-1], wIdx))
 					if err != nil {
 						return err
 					}
